@@ -1,2 +1,12 @@
-(* C17 *)
-From WaxModel Require Import Base.
+(* C17 -- Spans reported for errors and captures index the expression safely (first lemmas). *)
+From WaxModel Require Import Base Token Parse.
+From WaxProofs Require Import ParseFacts.
+
+(* a parse error entry located at a character covers exactly that character; at the end of input, nothing *)
+Theorem C17_error_span_char : forall pos c s, err_span pos (c :: s) = (pos, utf8_len c).
+Proof. exact err_span_char. Qed.
+Print Assumptions C17_error_span_char.
+
+Theorem C17_error_span_end : forall pos, err_span pos [] = (pos, 0).
+Proof. exact err_span_end. Qed.
+Print Assumptions C17_error_span_end.
